@@ -13,25 +13,6 @@ import (
 	"github.com/oasisprotocol/curve25519-voi/internal/verif/ref"
 )
 
-// FromRef builds the extended point (x : y : 1 : xy) from a reference point.
-func FromRef(p ref.Point) *curve.EdwardsPoint {
-	x, y := ref.FMod(p.X), ref.FMod(p.Y)
-	return curve.VerifFromCoords(ref.LE32(x), ref.LE32(y), ref.LE32(big.NewInt(1)), ref.LE32(ref.FMul(x, y)))
-}
-
-// FromRefScaled builds (lx : ly : l : lxy) from a reference point.
-func FromRefScaled(p ref.Point, l *big.Int) *curve.EdwardsPoint {
-	x, y := ref.FMod(p.X), ref.FMod(p.Y)
-	l = ref.FMod(l)
-	return curve.VerifFromCoords(ref.LE32(ref.FMul(l, x)), ref.LE32(ref.FMul(l, y)), ref.LE32(l), ref.LE32(ref.FMul(l, ref.FMul(x, y))))
-}
-
-// Coords returns the four extended coordinates as integers in [0, p).
-func Coords(p *curve.EdwardsPoint) (x, y, z, t *big.Int) {
-	xb, yb, zb, tb := curve.VerifCoords(p)
-	return ref.FromLE(xb[:]), ref.FromLE(yb[:]), ref.FromLE(zb[:]), ref.FromLE(tb[:])
-}
-
 // Affine reads a library point back.  ok is false when the representation is
 // malformed: Z = 0, T*Z != X*Y, or the affine point is not on the curve.
 func Affine(p *curve.EdwardsPoint) (ref.Point, bool) {
@@ -59,13 +40,6 @@ func IsExactIdentity(p *curve.EdwardsPoint) bool {
 	return x.Sign() == 0 && y.Cmp(big.NewInt(1)) == 0 && z.Cmp(big.NewInt(1)) == 0 && t.Sign() == 0
 }
 
-// SameCoords reports whether two library points have identical coordinate values (not merely the same point).
-func SameCoords(a, b *curve.EdwardsPoint) bool {
-	ax, ay, az, at := curve.VerifCoords(a)
-	bx, by, bz, bt := curve.VerifCoords(b)
-	return ax == bx && ay == by && az == bz && at == bt
-}
-
 // Lambdas returns the rescaling factors {1, 2, -1, generic...} (n generic ones).
 func Lambdas(seed int64, ngeneric int) []*big.Int {
 	out := []*big.Int{big.NewInt(1), big.NewInt(2), ref.FNeg(big.NewInt(1))}
@@ -79,7 +53,3 @@ func Lambdas(seed int64, ngeneric int) []*big.Int {
 	return out
 }
 
-// Rescale multiplies all four coordinates by lambda using the library's own field multiplication (hook).
-func Rescale(p *curve.EdwardsPoint, l *big.Int) *curve.EdwardsPoint {
-	return curve.VerifRescale(p, ref.LE32(ref.FMod(l)))
-}
